@@ -44,12 +44,13 @@ static struct iv_event cmd_ev[2];
 static volatile int cmd_done[2];
 static int cmd_op[2], cmd_arg[2];
 static volatile int never;
+static volatile int driver_done;
 static int loops_should_exit;
 static int hbudget;
 static int reg_order[NI] = { 0, 1, 2, 3 };
 static int have_usr2;
 
-enum { C_REG, C_UNREG, C_EXIT };
+enum { C_REG, C_UNREG, C_CLEAN, C_EXIT };
 
 static int cur_loop(void)
 {
@@ -215,14 +216,19 @@ static void cmd_handler(void *_l)
 	switch (cmd_op[l]) {
 	case C_REG: mc_obs("L%d:reg%d", l, cmd_arg[l]); do_reg(cmd_arg[l]); break;
 	case C_UNREG: mc_obs("L%d:unreg%d", l, cmd_arg[l]); if (I[cmd_arg[l]].reg) do_unreg(cmd_arg[l]); break;
-	case C_EXIT:
+	case C_CLEAN:
 		for (i = 0; i < NI; i++)
 			if (I[i].reg == 1 && I[i].thr == l)
 				do_unreg(i);
-		iv_event_unregister(&cmd_ev[l]);
 		break;
+	case C_EXIT:
+		/* the driver's last post: only once it has returned from it (and said so) may its target go away */
+		sched_wait_flag(&driver_done);
+		iv_event_unregister(&cmd_ev[l]);
+		return;
 	}
 	cmd_done[l] = 1;
+	sched_publish();
 }
 
 static void loop_body(int l)
@@ -242,6 +248,7 @@ static void loop_body(int l)
 		}
 	}
 	cmd_done[l] = 1;                /* ready */
+	sched_publish();
 	iv_main();
 	iv_deinit();
 }
@@ -257,6 +264,7 @@ static void command(int l, int op, int arg)
 	cmd_done[l] = 0;
 	cmd_op[l] = op;
 	cmd_arg[l] = arg;
+	sched_publish();
 	iv_event_post(&cmd_ev[l]);
 	sched_wait_flag(&cmd_done[l]);
 }
@@ -353,8 +361,15 @@ static void driver(void *dummy)
 	sched_wait_flag(&never);
 	/* everything has settled (obligations were checked at quiescence): tear down */
 	mc_obs("D:teardown");
-	command(1, C_EXIT, 0);
-	command(0, C_EXIT, 0);
+	command(1, C_CLEAN, 0);
+	command(0, C_CLEAN, 0);
+	/* final posts; nobody waits for a reply, and the loops wait for driver_done before tearing down */
+	cmd_op[1] = cmd_op[0] = C_EXIT;
+	sched_publish();
+	iv_event_post(&cmd_ev[1]);
+	iv_event_post(&cmd_ev[0]);
+	driver_done = 1;
+	sched_publish();
 }
 
 static int on_signal(int tid, int sig)
@@ -377,6 +392,8 @@ static int quiescent(void)
 {
 	check_obligations("all threads idle");
 	if (!never) {
+		/* the scenario is over and judged; the tear-down only serves the ledger: no schedule exploration in it */
+		sched_no_more_choices = 1;
 		never = 1;
 		return 1;
 	}
@@ -450,6 +467,9 @@ static void exec_one(void)
 		I[CFG[cfg].n - 1].reg = 0;
 	mc_obs("m%d cfg%d", method, cfg);
 	allocs0 = env_lib_allocs_live;
+	/* iv_init(3): the very first iv_init of the process must complete before other threads call it */
+	iv_init();
+	iv_deinit();
 	tid_of[0] = 0;
 	tid_of[1] = l1 = sched_spawn("L1", l1_thread, NULL);
 	driver_tid = d = sched_spawn("D", driver, NULL);
